@@ -5,6 +5,7 @@ Line-protocol driver for C08C (the MockExecution client and its protocol with th
 
 Configuration phase
   `cfg <latency_ms> <fee> <cap> <n> <bal>*n <k> <base:quote>*k`   (`bal` is `x` or `total:free`)
+  `shape <m|b|k> <tok>*k`   directly after `cfg`: exchange id + instrument kinds (`shapeOk`; syntax checked, content ignored)
   `grp <instr>`   `ord <instr> <strategy> <cid> <B|S> <M|L> <price> <qty> <tif> <state…>`
   `start <workers>`   |   `dcancel`
 Running phase (`<t>`, `<since>`: milliseconds within chrono's `DateTime<Utc>` range, else `bad-op`)
@@ -227,6 +228,25 @@ def addOrd (c : XCfg) (o : InitOrd) : Option XCfg :=
   | (i, os) :: before => some { c with groups := (before.reverse) ++ [(i, os ++ [o])] }
   | [] => none
 
+/-- One instrument token of the `shape` op: `<s|p|f|o><q|b><digit><u|t|c>[+]` (kind, quoting, settlement
+asset, contract size, spec present). -/
+def shapeTokOk (t : String) : Bool :=
+  match t.toList with
+  | [k, q, s, c] | [k, q, s, c, '+'] =>
+    (k == 's' || k == 'p' || k == 'f' || k == 'o') && (q == 'q' || q == 'b') && s.isDigit &&
+      (c == 'u' || c == 't' || c == 'c')
+  | _ => false
+
+/-- `shape <m|b|k> <tok>*k` directly after `cfg` (before any `grp`): the exchange id the mock stands for and
+the kind / quoting / settlement asset / contract size / spec of every instrument handed to
+`MockExchange::new`. The exchange reads `underlying` only and passes its exchange id through: the syntax
+is checked, the content ignored. -/
+def shapeOk (c : XCfg) : List String → Bool
+  | e :: toks =>
+    (e == "m" || e == "b" || e == "k") && c.groups.isEmpty && toks.length == c.base.instruments.length &&
+      toks.all shapeTokOk
+  | [] => false
+
 def model : Drv MSt where
   init := .idle
   step st toks :=
@@ -235,6 +255,7 @@ def model : Drv MSt where
       match parseCfg rest with
       | some c => (.config c, [])
       | none => (st, ["bad-op"])
+    | .config c, "shape" :: rest => (st, if shapeOk c rest then [] else ["bad-op"])
     | .config c, ["grp", i] =>
       match i.toNat? with
       | some i => (.config (addGroup c i), [])
@@ -295,6 +316,7 @@ def spec : Drv SSt where
       match parseCfg rest with
       | some c => (.config c, [])
       | none => (st, ["bad-op"])
+    | .config c, "shape" :: rest => (st, if shapeOk c rest then [] else ["bad-op"])
     | .config c, ["grp", i] =>
       match i.toNat? with
       | some i => (.config (addGroup c i), [])
